@@ -406,6 +406,18 @@ def dcelAnswer (ws : List String) : String :=
     | _, _ => "bad-line"
   | _ => "bad-line"
 
+/-- `ccpif E1 E2 S1 S2 NFA`: does the IfElse disappear from CCP's output? (S = e empty / p print / d division) -/
+def ccpifAnswer (ws : List String) : String :=
+  match ws with
+  | [e1, e2, s1, s2, nfa] =>
+    match e1.toInt?, e2.toInt?, nfa.toNat? with
+    | some e1, some e2, some nfa =>
+      let fas : List (Operand × Operand) :=
+        (if nfa ≥ 1 then [(Operand.lit e1, Operand.lit e2)] else []) ++ (if nfa ≥ 2 then [(Operand.var 0, Operand.var 1)] else [])
+      if ccpIfGone (s1 == "e") (s2 == "e") fas then "gone" else "kept"
+    | _, _, _ => "bad-line"
+  | _ => "bad-line"
+
 def licmAnswer (ws : List String) : String :=
   match parseS ws with
   | some p =>
@@ -474,6 +486,7 @@ def step (_ : Unit) (line : String) : Unit × String :=
     | "licmk" :: rest => licmkAnswer rest
     | "ivuse" :: rest => ivuseAnswer rest
     | "dceuse" :: rest => dceuseAnswer rest
+    | "ccpif" :: rest => ccpifAnswer rest
     | "dcel" :: rest => dcelAnswer rest
     | "dceloop" :: rest => dceloopAnswer rest
     | "algopt" :: rest => algoptAnswer rest
